@@ -533,12 +533,11 @@ fn op_iter<S: HK>(cfg: &Cfg) {
 /// (concrete), payload symbolic.
 fn op_insert<S: HK>(cfg: &Cfg, j: usize, cls: u8) {
     let mut st = build::<S>(cfg);
-    let g = st.g;
     let mut e = st.g;
     let n = cfg.n;
     let key = j as u8;
     let nv = Val { cls, data: kani::any() };
-    let wc = g.weigh(j, nv);
+    let wc = st.g.weigh(j, nv);
     // popularity exactly as the implementation estimates it, read just before the call
     let fc = st.c.frequency_sketch.frequency(S::h(key)) as u32;
     let mut f = [0u32; MAXN];
@@ -547,6 +546,13 @@ fn op_insert<S: HK>(cfg: &Cfg, j: usize, cls: u8) {
 
     st.c.insert(key, nv);
 
+    // every operation first removes the excess a grown update may have left
+    lru_evict_ghost(&mut e, n);
+    let g = e; // the admission below is decided on the state after that eviction
+    if j < n && !e.present[j] {
+        // the key itself was evicted for capacity just before: the insert is one of a NEW key (not instantiated)
+        chk!(false, "VERIF-BOUND: shape evicts the key it updates");
+    }
     if j < n {
         // update in place
         e.v[j] = nv;
@@ -558,26 +564,27 @@ fn op_insert<S: HK>(cfg: &Cfg, j: usize, cls: u8) {
         let ws = g.total_weight();
         let fits = match g.cap { None => true, Some(cap) => ws + wc as u64 <= cap };
         let mut admit = fits;
+        let mut vict = [false; MAXN];
         let mut nvict = 0usize;
         if !fits {
             let cap = g.cap.unwrap();
             if wc as u64 > cap {
                 admit = false; // heavier than the whole cache: never retained (C04)
             } else {
-                // shortest LRU prefix P with weight >= wc; admitted iff it exists and fc > sum freq(P)
+                // shortest LRU prefix P (of what is still resident) with weight >= wc; admitted iff it exists and fc > sum freq(P)
                 let mut pw = 0u64;
                 let mut pf = 0u32;
                 let mut i = 0;
                 while i < n {
-                    if pw < wc as u64 { pw += g.w[i] as u64; pf += f[i]; nvict = i + 1; }
+                    if g.present[i] && pw < wc as u64 { pw += g.w[i] as u64; pf += f[i]; vict[i] = true; nvict += 1; }
                     i += 1;
                 }
                 admit = pw >= wc as u64 && fc > pf;
-                if !admit { nvict = 0; }
+                if !admit { vict = [false; MAXN]; nvict = 0; }
             }
         }
         let mut i = 0;
-        while i < n { if i < nvict { e.remove(i); } i += 1; }
+        while i < n { if vict[i] { e.remove(i); } i += 1; }
         if admit {
             e.present[j] = true;
             e.v[j] = nv;
@@ -771,7 +778,7 @@ uh!(insert_new_n2_full_collide, 6, op_insert::<ConstH>(&cfg(2, Some(2), false, W
 // residents 3+5 (+2), capacity 10: newcomer key n weighs 4 (cls 0) / 9 (cls 1)
 uh!(insert_new_n2_w_fits, 6, op_insert::<IdH>(&cfg(2, Some(10), true, WT_A, false, false, WO_ID, false), 2, 0));       // 8+2 fits
 uh!(insert_new_n2_w_admit, 6, op_insert::<IdH>(&cfg(2, Some(9), true, WT_A, false, false, WO_ID, false), 2, 1));       // 8+6: victims {0,1}
-uh!(insert_new_n2_w_toobig, 6, op_insert::<IdH>(&cfg(2, Some(5), true, WT_A, false, false, WO_ID, false), 2, 1));      // 6 > 5... fits? no: too big
+uh!(insert_new_n2_w_toobig, 6, op_insert::<IdH>(&cfg(2, Some(8), true, WT_B, false, false, WO_ID, false), 2, 1));      // 6 > 5... fits? no: too big
 uh!(insert_new_n3_w_admit1, 7, op_insert::<IdH>(&cfg(3, Some(10), true, WT_A, false, false, WO_ID, false), 3, 0));     // 10+4: victim {0,1}? 3<4 -> {0,1}
 uh!(insert_upd_n2_w_grow, 6, op_insert::<IdH>(&cfg(2, Some(8), true, WT_A, false, false, WO_ID, false), 0, 1));        // 3 -> 7: over capacity afterwards
 uh!(insert_upd_n2_w_shrink, 6, op_insert::<IdH>(&cfg(2, Some(8), true, WT_A, false, false, WO_ID, false), 1, 1));      // 5 -> 1
